@@ -236,10 +236,11 @@ func runHist[K any](h *hk[K]) {
 	}
 	nProbe := vpParam(pi)
 	pi++
+	probeAt := pi
+	pi += nProbe
 	if mask&ckMap != 0 {
 		for j := 0; j < nProbe; j++ {
-			pk := mkKey(h, vpParam(pi))
-			pi++
+			pk := mkKey(h, vpParam(probeAt+j))
 			vpApi()
 			got, ok := t.Search(h.clone(pk))
 			want, wok := ref.get(pk)
@@ -647,9 +648,9 @@ func checkReiter[K any](h *hk[K], t Tree[K, uint64], ref *refMap[K], method, sa,
 		if pass == 1 {
 			if len(full.ks) > 0 {
 				t.Search(h.clone(full.ks[0]))
+				collect(t.Range(h.clone(full.ks[0]), h.clone(full.ks[len(full.ks)-1])))
 			}
 			t.Minimum()
-			collect(t.Range(h.clone(mkKey(h, sa)), h.clone(mkKey(h, sa))))
 		}
 		again := collect(seq)
 		ok := len(again.ks) == len(full.ks)
